@@ -75,6 +75,33 @@ func catalogue(sc *issuer.Scenario, rng *rand.Rand) []issuer.Mut {
 	return ms
 }
 
+// multiProof: credentials carrying several proofs.  VerifyProof takes the FIRST proof of the
+// requested type, binds ITS core claim to the credential and verifies exactly that proof.
+func multiProof(sc *issuer.Scenario) []*issuer.Case {
+	altHex, _ := sc.ClaimAlt.Hex()
+	unrelHex, _ := sc.Unrelated.Hex()
+	// decoy: names a claim that binds to the credential but was never inserted in the tree
+	decoy := sc.SMT.Clone()
+	decoy.CoreClaim = issuer.S(altHex)
+	// a genuine issuance proof of ANOTHER credential's claim of the same issuer
+	other := sc.SMT.Clone()
+	other.CoreClaim, other.MTP = issuer.S(unrelHex), sc.UnrelatedProof.Clone()
+	genuine := func() *issuer.ProofJ { return sc.SMT.Clone() }
+	mk := func(name, expect string, ps ...*issuer.ProofJ) *issuer.Case {
+		return sc.CaseOf("smt", "multi-proof:"+name, expect, nil, sc.Env.Clone(), ps...)
+	}
+	return []*issuer.Case{
+		mk("decoy-then-genuine", "reject", decoy.Clone(), genuine()),
+		mk("decoy-then-genuine-of-other-credential", "reject", decoy.Clone(), other.Clone()),
+		mk("genuine-then-decoy", "accept", genuine(), decoy.Clone()),
+		mk("genuine-of-other-credential-then-genuine", "reject", other.Clone(), genuine()),
+		mk("genuine-twice", "accept", genuine(), genuine()),
+		mk("bjj-then-smt", "accept", sc.BJJ.Clone(), genuine()),
+		mk("bjj-decoy-genuine", "reject", sc.BJJ.Clone(), decoy.Clone(), genuine()),
+		mk("smt-then-bjj", "accept", genuine(), sc.BJJ.Clone()),
+	}
+}
+
 // Scenarios of a run.
 func Scenarios(cfg *common.Config) []issuer.Params {
 	rng := cfg.Rng
@@ -135,6 +162,10 @@ func Run(cfg *common.Config) (*common.Report, error) {
 				extra = append(extra, sc.BJJ.Clone())
 			}
 			cs = append(cs, sc.CaseOf("smt", m.Name, m.Expect, proof, env, extra...))
+		}
+		cs = append(cs, multiProof(sc)...)
+		for len(ms) < len(cs) {
+			ms = append(ms, issuer.Mut{Name: cs[len(ms)].Fault, Expect: cs[len(ms)].Expect})
 		}
 		outs, specs, err := d.DoBatch(cs)
 		if err != nil {
